@@ -38,6 +38,7 @@ def check_flatten(case, stable, how, rec=None):
         ndec = len(fl.decays)
         got_meta = dict(fl.top_level_decay().metadata)
         mother = fl.mother
+        vis_after = dc.visible_bf  # on the same object, after flatten(S): still the product over the whole tree
         after = dc.to_dict()
     want_fs, want_bf = C.ref_flatten(case, frozenset(stable))
     got_fs = Counter({k: v for k, v in got_fs.items() if v > 0})
@@ -51,11 +52,9 @@ def check_flatten(case, stable, how, rec=None):
         raise Mismatch("C12:metadata", "top-level model information", top_meta, got_meta)
     if before != after:
         raise Mismatch("C12:input-mutated", "the original chain changed", before, after)
-    if not stable:
-        with impl(ID, "visible_bf"):
-            v = dc.visible_bf
-        if not math.isclose(v, want_bf, rel_tol=1e-9, abs_tol=0.0):
-            raise Mismatch("C12:visible_bf", "", want_bf, v)
+    full_bf = want_bf if not stable else C.ref_flatten(case, frozenset())[1]
+    if not math.isclose(vis_after, full_bf, rel_tol=1e-9, abs_tol=0.0):
+        raise Mismatch("C12:visible_bf", f"visible_bf queried after flatten(stable={sorted(stable)}) on the same chain", full_bf, vis_after)
 
 
 def nontrivial(case):
